@@ -80,7 +80,7 @@ ASSUMPTIONS = [
     "cannot be located they are listed under 'uncovered'",
     "pydantic, urllib and ipaddress are trusted",
 ]
-CHUNK = None
+CHUNK = 2
 
 # ---------------------------------------------------------------------------------------------
 # alphabets
